@@ -446,12 +446,8 @@ def _strip_casts(e):
 
 def precision_interval(prog, which):
     """interval of the `precision` field at the aggregate in NormalizerNN::new"""
-    fns = [f for f in prog.fns.values()
-           if f.name == "convolution::optimisations::%s::new" % which]
-    if len(fns) != 1:
-        raise CheckError("anchor %s::new: %d matches" % (which, len(fns)))
-    f = fns[0]
-    adt = [k for k in prog.adts if k.endswith("optimisations::%s" % which)]
+    f = prog.fn_by_name("convolution::optimisations::%s::new" % which)
+    adt = prog.adt_ids(which)
     if len(adt) != 1:
         raise CheckError("anchor struct %s" % which)
     fields = [x[0] for x in prog.adts[adt[0]]["variants"][0]["fields"]]
